@@ -292,6 +292,22 @@ Definition run_dsl (p : program) : list event * outcome :=
   | XDone rs st => after_exec p rs st
   end.
 
+(* ------------------------------------------------------------------ generation entry point
+   codegen/generator.Generate: calls Context.Roots() on the context RunDSL left behind and
+   hands the result, as it is, to the plugin prepare functions, to the generators and to
+   the plugin generate functions (in that order). *)
+Definition final_state (p : program) : state :=
+  match exec_phase p with XDone _ st => st | XStop st _ => st end.
+
+Definition generate_roots (p : program) : res := roots_of p (s_regs (final_state p)).
+
+(* what the three kinds of consumers receive; None: Generate returns the Roots() error *)
+Definition handover (p : program) : option (list (list nat)) :=
+  match generate_roots p with
+  | Ok l => Some [l; l; l]
+  | _ => None
+  end.
+
 (* ------------------------------------------------------------------ hypothesis of the
    partial theorem: every AAppend executed by an expression living in set k targets
    a set with a larger number (one the walker has not reached yet) *)
